@@ -31,7 +31,7 @@ func (sh *shape) conflicts(typ string, sels []*sel) bool {
 // semantics prescribe, for every request shape of the bounded grammar, every
 // alias collision, every leaf value and null-ness of the data graph.
 func C01_select() {
-	budget, depth, maxList := 4, 3, 2
+	budget, depth, maxList := 4, 2, 2
 	if sym.Thorough() {
 		budget, depth, maxList = 5, 3, 3
 	}
